@@ -68,11 +68,11 @@ def split_literals(ctx, P, rule, b, label):
         if not callee_of(t).endswith("Vec::<T, A>::push"):
             continue
         for c in Q.canon_conds(P, T.dom_conds(b, S, blk)):
-            if c[0] == "cmp" and c[1] == "Eq":
+            if c[0] == "cmp" and c[1] in ("Eq", "Ne"):
                 for side in (c[2], c[3]):
                     ss = T.strip(side)
                     if ss[0] == "const" and isinstance(ss[1], str):
-                        lits.add((ss[1], c[4]))
+                        lits.add((ss[1], (c[1] == "Eq") == c[4]))
             if c[0] == "bool" and c[1][0] == "call" and c[1][1].endswith("::eq"):
                 for a in c[1][2]:
                     ss = T.strip(a)
